@@ -55,6 +55,7 @@ def programs(tier: str):  # noqa: C901
     for when in ("before", "after"):
         yield {"special": "forward-refs", "other_defined": when}
     yield {"special": "nested-missing"}
+    yield {"special": "same-repr"}
     yield {"special": "alias-swap-and-self"}
     for leaf in ak.LEAF_NAMES:
         yield {"host": leaf}
@@ -266,6 +267,100 @@ def execute(program, ch: Chooser) -> Result:  # noqa: C901, PLR0912, PLR0915
                 viols.append(viol("accepts-conforming", f"special/{name}", "construction succeeds", err))
             stats["accepted" if ok else "rejected"] += 1
         return Result("special/alias-swap-and-self", True, viols, program, steps=max(steps, 1))
+    if program.get("special") == "same-repr":
+        # DIFFERENT annotations that read the same (Literal[1, 2] / Literal["1", "2"]; containers of
+        # two unrelated classes sharing one name; same-named enums), declared one after the other:
+        # each class validates against its own annotation.  And RE-ENTRANT construction: a lazy
+        # sequence argument that builds instances of the same class while it is being validated.
+        import enum as _enum
+        from typing import Literal as _Lit
+
+        checks = []
+        try:
+            def _item(kind):
+                class Item(State):  # noqa: D401 - two unrelated states both called Item
+                    x: kind
+
+                return Item
+
+            ItemI, ItemS = _item(int), _item(str)
+
+            def _level(values):
+                return _enum.Enum("Level", values)
+
+            LevelA, LevelB = _level({"LOW": 1, "HIGH": 2}), _level({"LOW": "l", "HIGH": "h"})
+
+            class P1(State):
+                a: _Lit[1, 2]
+                items: cabc.Sequence[ItemI] = ()
+                level: LevelA | None = None
+                by: cabc.Mapping[str, ItemI] | None = None
+
+            class P2(State):
+                a: _Lit["1", "2"]
+                items: cabc.Sequence[ItemS] = ()
+                level: LevelB | None = None
+                by: cabc.Mapping[str, ItemS] | None = None
+
+            class Node(State):
+                name: str
+                size: int
+                children: cabc.Sequence["Node"] = ()
+                tags: cabc.Sequence[str] = ()
+
+            class Lazy(cabc.Sequence):
+                """builds Node instances while the enclosing Node is being validated"""
+
+                def __init__(self, n):
+                    self.n = n
+
+                def __len__(self):
+                    return self.n
+
+                def __getitem__(self, i):
+                    if not 0 <= i < self.n:
+                        raise IndexError(i)
+                    return Node(name=f"child{i}", size=100 + i, tags=[f"t{i}"])
+
+            def _reentrant():
+                root = Node(name="root", size=1, children=Lazy(3), tags=["r"])
+                assert (root.name, root.size, tuple(root.tags)) == ("root", 1, ("r",)), f"outer instance holds {(root.name, root.size, root.tags)}"
+                assert [c.name for c in root.children] == ["child0", "child1", "child2"]
+                upd = root.updated(children=Lazy(2))
+                assert (upd.name, upd.size, tuple(upd.tags)) == ("root", 1, ("r",)), f"updated copy holds {(upd.name, upd.size, upd.tags)}"
+                return root
+
+            checks = [
+                ("literal-int-own", lambda: P1(a=1), True),
+                ("literal-int-gets-str", lambda: P1(a="1"), False),
+                ("literal-str-own", lambda: P2(a="1"), True),
+                ("literal-str-gets-int", lambda: P2(a=1), False),
+                ("same-name-state-own-1", lambda: P1(a=1, items=[ItemI(x=1)]), True),
+                ("same-name-state-own-2", lambda: P2(a="2", items=[ItemS(x="s")]), True),
+                ("same-name-state-foreign-2", lambda: P2(a="2", items=[ItemI(x=1)]), False),
+                ("same-name-state-foreign-1", lambda: P1(a=2, items=[ItemS(x="s")]), False),
+                ("same-name-enum-own-1", lambda: P1(a=1, level=LevelA.LOW), True),
+                ("same-name-enum-own-2", lambda: P2(a="1", level=LevelB.HIGH), True),
+                ("same-name-enum-foreign", lambda: P2(a="1", level=LevelA.HIGH), False),
+                ("same-name-mapping-own-2", lambda: P2(a="1", by={"k": ItemS(x="s")}), True),
+                ("same-name-mapping-foreign-2", lambda: P2(a="1", by={"k": ItemI(x=1)}), False),
+                ("re-entrant-construction", _reentrant, True),
+            ]
+        except Exception as exc:  # noqa: BLE001
+            viols.append(viol("declaration", "same-repr", "declares", f"{type(exc).__name__}: {exc}"[:160]))
+        for name, make, ok_expected in checks:
+            steps += 1
+            try:
+                make()
+                ok = True
+            except Exception as exc:  # noqa: BLE001
+                ok, err = False, f"{type(exc).__name__}: {str(exc)[:100]}"
+            if ok and not ok_expected:
+                viols.append(viol("rejects-nonconforming", f"special/{name}", "raises", "accepted"))
+            elif not ok and ok_expected:
+                viols.append(viol("accepts-conforming" if name != "re-entrant-construction" else "stored-faithfully", f"special/{name}", "construction succeeds with every attribute as supplied", err))
+            stats["accepted" if ok else "rejected"] += 1
+        return Result("special/same-repr", True, viols, program, steps=max(steps, 1))
     if program.get("special") == "nested-missing":
         # an attribute without default whose annotation admits MISSING only one union / alias /
         # type-variable level down: leaving it out conforms (it then holds MISSING)
